@@ -5,6 +5,7 @@
 // LegacyServer router), registration changes (refresh grant withdrawn / restored), and refresh requests with symbolic
 // operands (token = live / rotated / unknown of lineage #k, caller = owner / foreign client, credential presentation,
 // scope relation). The oracle is a lineage model written from the statement; it never calls pkg/op.
+// Concurrent histories (several refresh requests in flight at once, harness-owned interleaving) are in interleave_test.go.
 package c07
 
 import (
@@ -30,7 +31,7 @@ type ClientCfg struct {
 }
 
 type Op struct {
-	Kind   string `json:"kind"`             // issue | refresh | grant
+	Kind   string `json:"kind"`             // issue | refresh | grant | par (several refresh requests in flight at once, see interleave_test.go)
 	Legacy bool   `json:"legacy,omitempty"` // deployment that serves this op: false = op.Provider router, true = LegacyServer router
 
 	// issue: Client = owner, User, Scopes = scopes of the authorization request
@@ -52,6 +53,7 @@ type Op struct {
 	Extra      int    `json:"extra,omitempty"`   // which never-granted scope is added
 	Introspect bool   `json:"introspect,omitempty"`
 	ClaimID    bool   `json:"claim_id,omitempty"` // Basic / assertion presentations: additionally send client_id=<the lineage's client> in the form
+	Par        *Par   `json:"par,omitempty"`      // kind par
 	In         string `json:"in,omitempty"`       // where the parameters travel: "" = POST body | query-grant (grant_type in the URL query, rest in the body) | query-token (refresh_token in the URL query) | query-all (POST, everything in the URL query) | get (GET request)
 }
 
@@ -63,6 +65,7 @@ type Case struct {
 	RefreshOff     string       `json:"refresh_off,omitempty"`     // deployments with GrantTypeRefreshToken=false: "" | provider | legacy | both
 	NarrowPersists bool         `json:"narrow_persists,omitempty"` // storage policy: a narrowed scope becomes the lineage's grant
 	ExtraAud       bool         `json:"extra_aud,omitempty"`       // tokens carry an additional audience
+	NoRotate       bool         `json:"no_rotate,omitempty"`       // storage policy: a refresh keeps the refresh token (the storage hands the presented string back as the new one)
 	Ops            []Op         `json:"ops"`
 }
 
@@ -153,6 +156,8 @@ func genCase(t *rapid.T) Case {
 	if rapid.Bool().Draw(t, "errstyled") {
 		c.ErrStyle = rapid.SampledFrom(vkit.ErrStyles).Draw(t, "errstyle")
 	}
+	// refresh-token policy of the storage: rotate (a new string per refresh) or keep (the presented string is the new one)
+	c.NoRotate = rapid.IntRange(0, 3).Draw(t, "norotate") == 0
 	return c
 }
 
@@ -301,6 +306,11 @@ type world struct {
 	stop                               bool // a violation was recorded after which the model may be out of step
 	judged, greyOps, accepted, refused int
 	foreignTried, replayTried          bool
+
+	// concurrent steps (interleave_test.go)
+	gateJ0     int // journal length when the first gate was registered (the store counts calls per method from then on); -1: no gate yet
+	parSteps   int
+	parOverlap bool // some step had >= 2 requests on one live refresh token in flight at once (a gate held one of them while another one ran)
 }
 
 func (w *world) label(l ...string) {
@@ -336,7 +346,7 @@ func grantsFor(refresh bool) []string {
 }
 
 func newWorld(c Case, res *vkit.Result) *world {
-	w := &world{c: c, res: res, known: map[string]bool{}, labels: map[string]bool{}}
+	w := &world{c: c, res: res, known: map[string]bool{}, labels: map[string]bool{}, gateJ0: -1}
 	w.specs[0] = &vkit.ClientSpec{ID: "conf", Secret: "secret-conf", AppType: "web", AuthMethod: c.Conf}
 	w.specs[1] = &vkit.ClientSpec{ID: "pub", AppType: "native", AuthMethod: "none"}
 	w.specs[2] = &vkit.ClientSpec{ID: "pkj", AppType: "web", AuthMethod: "private_key_jwt", Keys: map[string]string{"kj": "rsa2"}}
@@ -352,7 +362,7 @@ func newWorld(c Case, res *vkit.Result) *world {
 	if c.SignAlg == "RS256" {
 		sk = vkit.SignKeySpec{KeyName: "rsa1", Alg: "RS256", KID: "sig-rs"}
 	}
-	pol := vkit.StorePolicy{NarrowPersists: c.NarrowPersists, ErrStyle: c.ErrStyle}
+	pol := vkit.StorePolicy{NarrowPersists: c.NarrowPersists, ErrStyle: c.ErrStyle, NoRotate: c.NoRotate}
 	if c.ExtraAud {
 		pol.ExtraAudience = []string{"https://api.example.com"}
 	}
@@ -619,17 +629,45 @@ func send(ag *vkit.Agent, form url.Values, cred vkit.Cred, in string) *vkit.Resp
 	return ag.Post(path, f, hdr)
 }
 
-// refresh executes one refresh op; false = stop the history (a violation was recorded and the model may be out of step).
-func (w *world) refresh(i int, op Op) bool {
-	res := w.res
+// attempt is one refresh request: operands resolved against the model, verdict of the model, then the answer.
+type attempt struct {
+	i        int
+	op       Op
+	router   string
+	ag       *vkit.Agent
+	l        *lineage
+	state    string // live | replayed | unknown
+	token    string // presented refresh token
+	caller   int
+	cred     vkit.Cred
+	authOK   bool
+	presKind string
+	form     url.Values
+	sclass   string
+	req      []string
+	bound    []string // scopes granted when the request was made (the issuance must stay within them)
+	reasons  []string
+	verdict  string // accept | refuse | grey
+	desc     string
+	resp     *vkit.Resp
+}
+
+func (a *attempt) class() string {
+	if a.verdict == "refuse" {
+		return "refuse:" + strings.Join(a.reasons, "+")
+	}
+	return a.verdict
+}
+
+// prepare resolves the symbolic operands of a refresh op against the model and computes the model's verdict (nil: skip the op).
+func (w *world) prepare(i int, op Op) *attempt {
 	for _, p := range []*int{&op.Lin, &op.Who, &op.Client, &op.Sel, &op.Extra, &op.Age} { // hand-written replay files
 		if *p < 0 {
 			*p = -*p
 		}
 	}
+	a := &attempt{i: i, op: op, router: routerName(op.Legacy), ag: w.agents[b2i(op.Legacy)]}
 	ri := b2i(op.Legacy)
-	router := routerName(op.Legacy)
-	ag := w.agents[ri]
 
 	// ---- resolve the symbolic operands
 	var l *lineage
@@ -679,7 +717,7 @@ func (w *world) refresh(i int, op Op) bool {
 		}
 		if w.known[token] { // cannot happen by construction; keep the model honest
 			w.label("refresh:unknown-collided")
-			return true
+			return nil
 		}
 		w.label("unknown-token:" + kind)
 	}
@@ -704,6 +742,7 @@ func (w *world) refresh(i int, op Op) bool {
 			req = strings.Split(raw, " ")
 		}
 		sclass = scopeClass(present, req, l.granted, l.orig)
+		a.bound = l.granted
 	}
 
 	// ---- verdict of the model
@@ -756,50 +795,68 @@ func (w *world) refresh(i int, op Op) bool {
 		l.widenTried = true
 	}
 
-	// ---- execute
-	nr0, nt0 := w.tables()
-	resp := send(ag, form, cred, op.In)
-	nr1, nt1 := w.tables()
-	calls := w.st.CallsOf(resp.Req)
-	both, accessOnly := createCalls(calls)
+	a.l, a.state, a.token, a.caller = l, state, token, caller
+	a.cred, a.authOK, a.presKind = cred, authOK, presKind
+	a.form, a.sclass, a.req = form, sclass, req
+	a.reasons, a.verdict = reasons, verdict
+	a.desc = fmt.Sprintf("op %d (%s router): refresh of %s token of lineage %s by client %q (%s), scope %q (%s)", i, a.router, state, linDesc(l), w.specs[caller].ID, presKind, form.Get("scope"), sclass)
+	if op.In != "" {
+		a.desc += ", parameters: " + op.In
+	}
+	return a
+}
 
-	class := verdict
-	if verdict == "refuse" {
-		class = "refuse:" + strings.Join(reasons, "+")
-	}
+// account puts the attempt into the label histogram, the distinctness signature and the judged / grey counters.
+func (w *world) account(a *attempt, prefix string) {
+	router, class, op := a.router, a.class(), a.op
 	switch {
-	case verdict == "refuse" && len(reasons) > 1:
-		w.label("op:" + router + ":refuse:several-reasons")
+	case a.verdict == "refuse" && len(a.reasons) > 1:
+		w.label(prefix + "op:" + router + ":refuse:several-reasons")
 	default:
-		w.label("op:" + router + ":" + class) // refuse:<reason> = that reason is the only thing wrong with the request
+		w.label(prefix + "op:" + router + ":" + class) // refuse:<reason> = that reason is the only thing wrong with the request
 	}
-	if sclass != "n/a" {
-		w.label("scope:" + op.Scope + "->" + sclass)
+	if a.sclass != "n/a" {
+		w.label("scope:" + op.Scope + "->" + a.sclass)
 	}
-	w.label("pres:"+presKind, "token:"+state)
+	w.label("pres:"+a.presKind, "token:"+a.state)
 	place := ""
 	if op.In != "" {
 		place = "@" + op.In
-		if verdict == "refuse" && len(reasons) == 1 {
+		if a.verdict == "refuse" && len(a.reasons) == 1 {
 			w.label("in:" + op.In + ":" + router + ":" + class)
 		} else {
-			w.label("in:" + op.In + ":" + router + ":" + verdict)
+			w.label("in:" + op.In + ":" + router + ":" + a.verdict)
 		}
 	}
-	w.sig = append(w.sig, fmt.Sprintf("%s/%s/%s/%s%s", router[:1], class, op.Scope, clientName(caller), place))
-	if verdict == "grey" {
+	w.sig = append(w.sig, fmt.Sprintf("%s%s/%s/%s/%s%s", prefix, router[:1], class, op.Scope, clientName(a.caller), place))
+	if a.verdict == "grey" {
 		w.greyOps++
 	} else {
 		w.judged++
 	}
+}
+
+// refresh executes one refresh op; false = stop the history (a violation was recorded and the model may be out of step).
+func (w *world) refresh(i int, op Op) bool {
+	res := w.res
+	a := w.prepare(i, op)
+	if a == nil {
+		return true
+	}
+	l, router, token, verdict, reasons, sclass, desc := a.l, a.router, a.token, a.verdict, a.reasons, a.sclass, a.desc
+
+	// ---- execute
+	nr0, nt0 := w.tables()
+	resp := send(a.ag, a.form, a.cred, op.In)
+	a.resp = resp
+	nr1, nt1 := w.tables()
+	calls := w.st.CallsOf(resp.Req)
+	both, accessOnly := createCalls(calls)
+	w.account(a, "")
 
 	if resp.Panic != nil {
 		res.Fail("C07:panic@"+resp.PanicFrame(), "op %d: refresh request panicked: %v", i, resp.Panic)
 		return false
-	}
-	desc := fmt.Sprintf("op %d (%s router): refresh of %s token of lineage %s by client %q (%s), scope %q (%s)", i, router, state, linDesc(l), w.specs[caller].ID, presKind, form.Get("scope"), sclass)
-	if op.In != "" {
-		desc += ", parameters: " + op.In
 	}
 
 	if !resp.Success() {
@@ -844,14 +901,7 @@ func (w *world) refresh(i int, op Op) bool {
 		w.label("in:" + op.In + ":" + router + ":served")
 	}
 	if verdict == "refuse" {
-		grants := ""
-		if l != nil && strings.HasPrefix(reasons[0], "scope-") {
-			grants = fmt.Sprintf("; original grant %v", l.orig)
-			if !sameSet(l.orig, l.granted) {
-				grants += fmt.Sprintf(", current grant %v", l.granted)
-			}
-		}
-		res.Fail("C07:"+router+":accepted:"+reasons[0], "%s: must be refused (%s%s) but was answered %s", desc, strings.Join(reasons, ", "), grants, brief(resp))
+		res.Fail("C07:"+router+":accepted:"+reasons[0], "%s: must be refused (%s%s) but was answered %s", desc, strings.Join(reasons, ", "), grantsNote(a), brief(resp))
 		return false
 	}
 	// from here on: token live, caller is the owner, lineage known
@@ -864,16 +914,49 @@ func (w *world) refresh(i int, op Op) bool {
 		res.Fail("C07:"+router+":rotation-current-mismatch", "%s: the storage was asked to rotate %q, the presented refresh token was %q", desc, cur, token)
 		return false
 	}
+	// the response carries what the storage answered to that call: a new string (rotating storage) or the presented one (keeping storage)
 	snap, exists := w.st.RefreshSnapshot(newRT)
-	if newRT == "" || newRT == token || w.known[newRT] || !exists || snap.Dead || nr1 != nr0+1 {
-		res.Fail("C07:"+router+":refresh-token-not-from-storage", "%s: response refresh_token %q is not the token the storage created for this rotation (presented %q, in storage=%v, dead=%v, seen before=%v, refresh table %d->%d)",
-			desc, newRT, token, exists, snap.Dead, w.known[newRT], nr0, nr1)
+	if w.c.NoRotate {
+		w.label("store-answer:kept-token:" + router)
+		if newRT != token || !exists || snap.Dead || nr1 != nr0 {
+			res.Fail("C07:"+router+":refresh-token-not-from-storage", "%s: the storage keeps refresh tokens and answered the rotation call with the presented token %q, the response carries refresh_token %q (in storage=%v, dead=%v, refresh table %d->%d)",
+				desc, token, newRT, exists, snap.Dead, nr0, nr1)
+			return false
+		}
+	} else {
+		if newRT == "" || newRT == token || w.known[newRT] || !exists || snap.Dead || nr1 != nr0+1 {
+			res.Fail("C07:"+router+":refresh-token-not-from-storage", "%s: response refresh_token %q is not the token the storage created for this rotation (presented %q, in storage=%v, dead=%v, seen before=%v, refresh table %d->%d)",
+				desc, newRT, token, exists, snap.Dead, w.known[newRT], nr0, nr1)
+			return false
+		}
+		if old, ok := w.st.RefreshSnapshot(token); !ok || !old.Dead {
+			res.Fail("C07:"+router+":old-token-still-live", "%s: succeeded but the presented token was not rotated out by the storage", desc)
+			return false
+		}
+	}
+	if !w.judgeIssued(a, snap, true) {
 		return false
 	}
-	if old, ok := w.st.RefreshSnapshot(token); !ok || !old.Dead {
-		res.Fail("C07:"+router+":old-token-still-live", "%s: succeeded but the presented token was not rotated out by the storage", desc)
-		return false
+	w.step(a, newRT, scopeField(resp), nil)
+	return true
+}
+
+func grantsNote(a *attempt) string {
+	if a.l == nil || len(a.reasons) == 0 || !strings.HasPrefix(a.reasons[0], "scope-") {
+		return ""
 	}
+	s := fmt.Sprintf("; original grant %v", a.l.orig)
+	if !sameSet(a.l.orig, a.bound) {
+		s += fmt.Sprintf(", current grant %v", a.bound)
+	}
+	return s
+}
+
+// judgeIssued judges what a successful refresh issued (a.resp; snap = storage record of the refresh token the response
+// carries): bound to the lineage's client and subject, scope within the grant that was current when the request was made,
+// id_token / access token continuity. exclusive: no other request touched the record since (snap.AccessID is this request's).
+func (w *world) judgeIssued(a *attempt, snap vkit.RefreshTok, exclusive bool) bool {
+	res, l, router, desc, resp, op := w.res, a.l, a.router, a.desc, a.resp, a.op
 	if snap.ClientID != w.specs[l.client].ID || snap.Subject != l.user {
 		res.Fail("C07:"+router+":new-refresh-token-rebound", "%s: new refresh token is bound to client %q subject %q, lineage belongs to client %q subject %q", desc, snap.ClientID, snap.Subject, w.specs[l.client].ID, l.user)
 		return false
@@ -890,7 +973,7 @@ func (w *world) refresh(i int, op Op) bool {
 		if !obs.ok {
 			continue
 		}
-		if !subset(obs.scopes, l.granted) {
+		if !subset(obs.scopes, a.bound) {
 			bound := "original grant"
 			if !subset(obs.scopes, l.orig) {
 				res.Fail("C07:"+router+":scope-grew-beyond-original", "%s: %s is %v, original grant is %v", desc, obs.where, obs.scopes, l.orig)
@@ -899,11 +982,11 @@ func (w *world) refresh(i int, op Op) bool {
 			if w.c.NarrowPersists {
 				bound = "persistently narrowed grant"
 			}
-			res.Fail("C07:"+router+":scope-grew", "%s: %s is %v, which exceeds the %s %v", desc, obs.where, obs.scopes, bound, l.granted)
+			res.Fail("C07:"+router+":scope-grew", "%s: %s is %v, which exceeds the %s %v", desc, obs.where, obs.scopes, bound, a.bound)
 			return false
 		}
 	}
-	if req != nil && verdict == "accept" && !sameSet(issued, req) {
+	if a.req != nil && a.verdict == "accept" && !sameSet(issued, a.req) {
 		w.label("issued-differs-from-requested") // statement only bounds the scope from above; not asserted
 	}
 
@@ -958,12 +1041,12 @@ func (w *world) refresh(i int, op Op) bool {
 			}
 		}
 	}
-	if op.Introspect && l.client != 1 {
+	if op.Introspect && l.client != 1 && exclusive {
 		ic := vkit.RightCred(w.specs[l.client], issuer)
 		if l.client == 0 {
 			ic = vkit.Cred{Kind: "basic", ClientID: "conf", Secret: "secret-conf"}
 		}
-		in := ag.Introspect(resp.Str("access_token"), ic)
+		in := a.ag.Introspect(resp.Str("access_token"), ic)
 		if m := in.JSON(); in.Success() && m != nil && m["active"] == true {
 			w.label("observed:introspection")
 			isc, _ := m["scope"].(string)
@@ -971,8 +1054,8 @@ func (w *world) refresh(i int, op Op) bool {
 				res.Fail("C07:"+router+":access-token-sub-changed", "%s: introspection sub %q, original subject %q", desc, s, l.user)
 				return false
 			}
-			if isc != "" && !subset(strings.Split(isc, " "), l.granted) {
-				res.Fail("C07:"+router+":scope-grew", "%s: introspection of the new access token reports scope %q, currently granted %v", desc, isc, l.granted)
+			if isc != "" && !subset(strings.Split(isc, " "), a.bound) {
+				res.Fail("C07:"+router+":scope-grew", "%s: introspection of the new access token reports scope %q, currently granted %v", desc, isc, a.bound)
 				return false
 			}
 			if !sameSet(audOf(m), l.atAud) {
@@ -983,11 +1066,18 @@ func (w *world) refresh(i int, op Op) bool {
 			w.label("introspection-unavailable")
 		}
 	}
+	return true
+}
 
-	// ---- model step
-	l.tokens = append(l.tokens, newRT)
-	l.access = append(l.access, resp.Str("access_token"))
-	w.known[newRT] = true
+// step advances the model after a successful refresh. granted (concurrent steps with a keeping storage whose narrowing
+// persists: the record's scope list as the storage left it) overrides "what this request was issued" as the new grant.
+func (w *world) step(a *attempt, newRT string, issued, granted []string) {
+	l := a.l
+	if newRT != l.live() {
+		l.tokens = append(l.tokens, newRT)
+		w.known[newRT] = true
+	}
+	l.access = append(l.access, a.resp.Str("access_token"))
 	l.refreshes++
 	l.lastIssued = dedupe(issued)
 	if !sameSet(issued, l.orig) {
@@ -999,6 +1089,9 @@ func (w *world) refresh(i int, op Op) bool {
 	}
 	if w.c.NarrowPersists {
 		l.granted = dedupe(issued)
+		if granted != nil {
+			l.granted = dedupe(granted)
+		}
 		if len(l.granted) == 0 { // cannot be narrowed to nothing by a well-formed request; keep the model defined
 			l.granted = l.orig
 		}
@@ -1009,7 +1102,6 @@ func (w *world) refresh(i int, op Op) bool {
 	if l.refreshes >= 4 {
 		w.label("chain:len>=4")
 	}
-	return true
 }
 
 func linDesc(l *lineage) string {
@@ -1058,6 +1150,10 @@ loop:
 			if !w.refresh(i, op) {
 				break loop
 			}
+		case "par":
+			if op.Par != nil && !w.par(i, op.Par) {
+				break loop
+			}
 		}
 		if w.stop {
 			break
@@ -1086,23 +1182,34 @@ loop:
 	} else {
 		w.label("store:narrow-per-issuance")
 	}
+	if c.NoRotate {
+		w.label("store:keeps-refresh-token")
+	} else {
+		w.label("store:rotates-refresh-token")
+	}
 	w.label("refresh-off:" + c.RefreshOff)
+	if w.parOverlap {
+		w.label("nontrivial:overlap-on-one-token")
+	}
 	for l := range w.labels {
 		res.Labels = append(res.Labels, l)
 	}
 	sort.Strings(res.Labels)
 	res.NonTrivial = narrowThenWiden || w.foreignTried || w.replayTried
+	if w.parSteps > 0 {
+		res.NonTrivial = w.parOverlap // concurrent histories: the rule is about the overlap
+	}
 	res.Grey = w.judged == 0
-	res.Key = fmt.Sprintf("np=%v|off=%s|%s", c.NarrowPersists, c.RefreshOff, strings.Join(w.sig, ","))
+	res.Key = fmt.Sprintf("np=%v|nr=%v|off=%s|%s", c.NarrowPersists, c.NoRotate, c.RefreshOff, strings.Join(w.sig, ","))
 	res.Info = map[string]any{"lineages": len(w.lins), "refresh_accepted": w.accepted, "refresh_refused": w.refused, "judged": w.judged, "grey_ops": w.greyOps, "max_chain": maxChain}
 	return res
 }
 
 var prop = vkit.Prop[Case]{
 	ID: "C07",
-	Rule: "cases = histories on two deployments sharing one storage (op.Provider router / LegacyServer router chosen per op; refresh grant disabled on none / one / both): 1-3+ code exchanges (openid, mostly offline_access, random further scopes) by a confidential (basic|post), a public PKCE and a private_key_jwt client, then up to 14 (thorough 28) ops: refresh(token = live / rotated / unknown{random,flipped,suffixed,access token,empty} of lineage #k; caller = owner / foreign client; presentation = right (optionally plus client_id=<owner> next to Basic / assertion) / wrong secret / client_id only / assertion by unregistered key; scope = absent / equal / permuted / subset / duplicate / full original / superset / widen-back / disjoint / empty / stray spaces; parameter placement = POST body / grant_type in the URL query / refresh_token in the URL query / everything in the URL query / GET; narrow->ask-for-more and rotate->replay pairs are generated on purpose), withdraw / restore a client's refresh grant, further code exchanges; storage policy narrowing persists on/off, extra audience, opaque / JWT access tokens; " +
-		"oracle = lineage model (must-accept iff owner + authenticated/identified + registered + enabled + live + scope within current grant; empty scope-tokens grey; with parameters outside the body serving is not demanded (grey) but every refusal reason still binds and a success is judged in full) with journal assertions (exactly one CreateAccessAndRefreshTokens(current = presented) on success, no Create* and unchanged tables on refusal), response refresh_token = storage's new token, id_token sub/aud/auth_time and access-token sub/aud continuity, scope of every issuance within the current grant; " +
-		"non-trivial = a lineage with >=2 successful refreshes containing a narrowing and a later request for more than the previous issuance, or a foreign-client attempt on a live token, or a replay of a rotated token; distinct = (narrow policy, disabled deployments, sequence of router/verdict+reasons/scope kind/caller/placement per refresh op)",
+	Rule: "cases = histories on two deployments sharing one storage (op.Provider router / LegacyServer router chosen per op; refresh grant disabled on none / one / both): 1-3+ code exchanges (openid, mostly offline_access, random further scopes) by a confidential (basic|post), a public PKCE and a private_key_jwt client, then up to 14 (thorough 28) ops: refresh(token = live / rotated / unknown{random,flipped,suffixed,access token,empty} of lineage #k; caller = owner / foreign client; presentation = right (optionally plus client_id=<owner> next to Basic / assertion) / wrong secret / client_id only / assertion by unregistered key; scope = absent / equal / permuted / subset / duplicate / full original / superset / widen-back / disjoint / empty / stray spaces; parameter placement = POST body / grant_type in the URL query / refresh_token in the URL query / everything in the URL query / GET; narrow->ask-for-more and rotate->replay pairs are generated on purpose), withdraw / restore a client's refresh grant, further code exchanges; storage policy narrowing persists on/off, refresh-token policy of the storage rotate (new string per refresh) / keep (1 in 4 cases: the storage answers the rotation call with the presented string, the token stays live), storage error styles, extra audience, opaque / JWT access tokens; " +
+		"oracle = lineage model (must-accept iff owner + authenticated/identified + registered + enabled + live + scope within current grant; empty scope-tokens grey; with parameters outside the body serving is not demanded (grey) but every refusal reason still binds and a success is judged in full) with journal assertions (exactly one CreateAccessAndRefreshTokens(current = presented) on success, no Create* and unchanged tables on refusal), response refresh_token = what the storage answered to that call (rotating storage: the record created by it, old token dead; keeping storage: the presented string, still live, refresh table unchanged), id_token sub/aud/auth_time and access-token sub/aud continuity, scope of every issuance within the current grant; " +
+		"non-trivial = a lineage with >=2 successful refreshes containing a narrowing and a later request for more than the previous issuance, or a foreign-client attempt on a live token, or a replay of a rotated token; distinct = (narrow policy, rotation policy, disabled deployments, sequence of router/verdict+reasons/scope kind/caller/placement per refresh op)",
 	Gen: genCase,
 	Run: run,
 }
